@@ -4,9 +4,9 @@ real sqlite storage.  Heartbeat rows are aged by rewriting their timestamp relat
 the contract assumed in contracts/heartbeat.py: the stale ids are exactly the RUNNING trials of this study whose heartbeat
 is older than the grace period, and a sweep fails exactly those, once.
 
-bound: heartbeat_interval in {1, 30} x grace_period in {None (= 2 x interval), 5, 60, 3600} x heartbeat ages in
-       {0, grace-2, grace+2, 1 day + 2 s, 1 day + grace + 2 s, 3 days - 2 s} seconds (2 s clear of the boundary because the
-       database clock keeps running) x trial kinds {RUNNING with heartbeat, RUNNING without heartbeat, COMPLETE with an old
+bound: heartbeat_interval in {30, 120} x grace_period in {None (= 2 x interval), 60, 3600} x heartbeat ages in
+       {0, grace-30, grace+2, 1 day + 2 s, 1 day + grace + 2 s, 3 days - 2 s} seconds (fresh heartbeats stay 30 s clear of the
+       boundary because the database clock keeps running while the harness works; stale ones only get staler) x trial kinds {RUNNING with heartbeat, RUNNING without heartbeat, COMPLETE with an old
        heartbeat, WAITING, RUNNING with an old heartbeat in ANOTHER study}; then fail_stale_trials twice (second sweep must
        change nothing); sqlite only."""
 from __future__ import annotations
@@ -44,9 +44,9 @@ def run(pid, tier, seed):
         finally:
             st.scoped_session.remove()
 
-    for interval, grace in itertools.product((1, 30), (None, 5, 60, 3600)):
+    for interval, grace in itertools.product((30, 120), (None, 60, 3600)):
         g = 2 * interval if grace is None else grace
-        ages = sorted({0, max(g - 2, 0), g + 2, 86400 + 2, 86400 + g + 2, 3 * 86400 - 2})
+        ages = sorted({0, g - 30, g + 2, 86400 + 2, 86400 + g + 2, 3 * 86400 - 2})
         failed_cb = []
         st = RDBStorage("sqlite:///:memory:", heartbeat_interval=interval, grace_period=grace,
                         failed_trial_callback=lambda study, trial: failed_cb.append(trial.number))
@@ -97,7 +97,7 @@ def run(pid, tier, seed):
         if st.get_all_trials(other._study_id)[0].state != TrialState.RUNNING:
             bad("fail_stale_trials touched a trial of another study", heartbeat_interval=interval, grace_period=grace)
         st.remove_session()
-    samples.append({"case": "interval 30, grace 3600: heartbeats aged 3598 s stay RUNNING; 3602 s, 1 day + 2 s, 3 days - 2 s are failed once"})
+    samples.append({"case": "interval 30, grace 3600: heartbeats aged 3570 s stay RUNNING; 3602 s, 1 day + 2 s, 3 days - 2 s are failed once"})
     return {"name": "bounded.heartbeat_lattice", "function": "optuna/storages/_rdb/storage.py:RDBStorage._get_stale_trial_ids, record_heartbeat; optuna/storages/_heartbeat.py:fail_stale_trials on sqlite",
             "bound": __doc__.split("bound:")[1].strip(), "evaluations": evals, "distinct_nontrivial": nontrivial,
             "rule": "every (interval, grace) pair is run with every listed age and trial kind in one study",
